@@ -178,7 +178,18 @@ func (p *Processor) ChargingDataCreate(
 		self.Lock()
 		seq := self.LocalRecordSequenceNumber
 		self.Unlock()
-		chargingSessionId = ueId + consumerId + strconv.Itoa(int(seq))
+		// the number is digits only: the separator keeps consumer names that end in digits apart
+		// ("SMF1" at 2 and "SMF" at 12 used to share one reference)
+		chargingSessionId = ueId + consumerId + "-" + strconv.Itoa(int(seq))
+		if _, live := ue.Cdr[chargingSessionId]; live {
+			// never replace a session that has not been released
+			ue.CULock.Unlock()
+			problemDetails := &models.ProblemDetails{
+				Status: http.StatusConflict,
+				Detail: "charging session reference already in use",
+			}
+			return nil, "", problemDetails
+		}
 	}
 	cdr, err := p.OpenCDR(chargingData, ue, chargingSessionId, false)
 	if err != nil {
